@@ -31,7 +31,7 @@ def aux():
     if not _AUX:
         xo = U.xo()
         In = type("SerIn", (xo.HybridClass,), {"_xofields": {"p": xo.Field(xo.Int64, default=5), "q": xo.Float64[2]}})
-        XS = type("SerXS", (xo.Struct,), {"u": xo.Int32, "w": xo.Float64[2]})
+        XS = type("SerXS", (xo.Struct,), {"u": xo.Int32, "w": xo.Float64[2, 2]})      # (a 2-D member: "scalar arrays of any shape")
         _AUX.update(In=In, XS=XS)
     return _AUX
 
@@ -80,7 +80,7 @@ def field_plan(i, f, salt, as_parent=False):
         vals = dict(zero=dict(p=5, q=[0.0, 0.0]), other=dict(p=1, q=[1.0, 2.0]))
         base, dv, conv = aux()["In"], None, (lambda v: dict(v))
     else:
-        vals = dict(zero=dict(u=0, w=[0.0, 0.0]), other=dict(u=3, w=[4.0, 5.0]))
+        vals = dict(zero=dict(u=0, w=[[0.0, 0.0], [0.0, 0.0]]), other=dict(u=3, w=[[4.0, 5.0], [6.0, 7.0]]))
         base, dv, conv = aux()["XS"], None, (lambda v: dict(v))
     if as_parent and kind in ("sc", "str", "arr", "darr"):
         ftype = xo.Field(base, default=conv(vals["other"]))
